@@ -61,6 +61,11 @@ type funcInfo struct {
 	recursive bool
 }
 
+type constInfo struct {
+	name string
+	typ  string // "", "int" or a named type
+}
+
 type methInfo struct {
 	typ, name string
 	recursive bool
@@ -71,6 +76,7 @@ type genT struct {
 	vars     []string // package-level int variables
 	locals   []string // variables defined by statements (x := e)
 	closures []string
+	consts   []constInfo // constants declared so far
 	funcs    []funcInfo
 	types    []string
 	methods  []methInfo
@@ -109,8 +115,16 @@ func (g *genT) constExpr(c ctxT) *exprT {
 }
 
 // pure: no call.
+func (g *genT) constRef() *exprT {
+	ci := g.consts[g.pick(len(g.consts))]
+	return &exprT{K: "glob", X: ci.name, Conv: ci.typ != "" && ci.typ != "int"}
+}
+
 func (g *genT) pure(depth int, c ctxT) *exprT {
 	k := g.pick(6)
+	if len(g.consts) > 0 && g.pick(5) == 0 {
+		return g.constRef()
+	}
 	switch {
 	case k <= 1 && len(c.vars) > 0:
 		return glob(c.vars[g.pick(len(c.vars))])
@@ -265,7 +279,76 @@ func (g *genT) bodyVars() []string {
 	return g.vars
 }
 
+// kexpr: a constant expression over iota (when inBlock), literals and earlier untyped constants.
+func (g *genT) kexpr(depth int, useIota bool) *kexprT {
+	var untyped []string
+	for _, c := range g.consts {
+		if c.typ == "" {
+			untyped = append(untyped, c.name)
+		}
+	}
+	switch k := g.pick(6); {
+	case k <= 1 && useIota:
+		return &kexprT{K: "iota"}
+	case k == 2 && len(untyped) > 0:
+		return &kexprT{K: "ref", X: untyped[g.pick(len(untyped))]}
+	case k <= 4 && depth > 0:
+		return &kexprT{K: "bin", Op: []string{"add", "mul", "sub", "add"}[g.pick(4)], A: g.kexpr(depth-1, useIota), B: &kexprT{K: "num", N: int64(1 + g.pick(3))}}
+	}
+	return &kexprT{K: "num", N: int64(g.pick(9))}
+}
+
+func containsIota(e *kexprT) bool {
+	return e != nil && (e.K == "iota" || containsIota(e.A) || containsIota(e.B))
+}
+
+// constDecl: a single constant, or a parenthesised declaration using iota with implicit repetition.
+func (g *genT) constDecl() []itemT {
+	typ := ""
+	switch k := g.pick(5); {
+	case k == 0:
+		typ = "int"
+	case k == 1 && len(g.types) > 0:
+		typ = g.types[g.pick(len(g.types))]
+	}
+	if g.pick(5) < 2 {
+		x := g.fresh("K")
+		it := itemT{K: "const", X: x, KE: g.kexpr(1, false), Last: true, Typ: typ}
+		g.consts = append(g.consts, constInfo{x, typ})
+		return []itemT{it}
+	}
+	n := 2 + g.pick(3)
+	var out []itemT
+	var names []constInfo
+	var prev *kexprT
+	for i := 0; i < n; i++ {
+		x := g.fresh("K")
+		it := itemT{K: "const", X: x, Paren: true, Open: i == 0, Last: i == n-1, Typ: typ}
+		if i > 0 && g.pick(10) < 7 {
+			it.Implicit, it.KE = true, prev
+		} else {
+			e := g.kexpr(2, true)
+			if i == 0 && !containsIota(e) {
+				e = &kexprT{K: "bin", Op: "add", A: &kexprT{K: "iota"}, B: e}
+			}
+			it.KE = e
+			if i > 0 {
+				// an explicit spec inside the declaration keeps the declaration's type
+			}
+		}
+		prev = it.KE
+		out = append(out, it)
+		names = append(names, constInfo{x, typ})
+	}
+	// the constants become visible after the declaration (an expression of the block never names them)
+	g.consts = append(g.consts, names...)
+	return out
+}
+
 func (g *genT) declItem(inStmtSection bool) []itemT {
+	if g.pick(8) == 0 {
+		return g.constDecl()
+	}
 	for {
 		switch k := g.pick(10); {
 		case k <= 2 && !inStmtSection:
@@ -336,7 +419,15 @@ func (g *genT) dump() []itemT {
 	for _, x := range append(append([]string{}, g.vars...), g.locals...) {
 		out = append(out, itemT{K: "stmt", S: &stmtT{K: "print", Tag: g.tag(), E: glob(x)}})
 	}
+	for _, c := range g.consts {
+		out = append(out, itemT{K: "stmt", S: &stmtT{K: "print", Tag: g.tag(), E: &exprT{K: "glob", X: c.name, Conv: c.typ != "" && c.typ != "int"}}})
+	}
 	return out
+}
+
+// insideConstDecl: position j (between items j-1 and j) is inside a const declaration.
+func insideConstDecl(items []itemT, j int) bool {
+	return j > 0 && j < len(items) && items[j-1].K == "const" && !items[j-1].Last
 }
 
 // program builds an in-domain program: variables first, then init functions, then statements;
@@ -367,9 +458,20 @@ func (g *genT) program(thorough bool) []itemT {
 	return append(items, g.dump()...)
 }
 
-// cuts picks cut positions among the item boundaries and returns the chunk lengths.
-func cutsFor(rng *rand.Rand, n int) []int {
+// cutsFor picks cut positions among the item boundaries (a const declaration is one piece of text:
+// no cut inside it) and returns the chunk lengths.
+func cutsFor(rng *rand.Rand, items []itemT) []int {
+	n := len(items)
 	if n <= 1 {
+		return nil
+	}
+	var allowed []int
+	for b := 1; b < n; b++ {
+		if !insideConstDecl(items, b) {
+			allowed = append(allowed, b)
+		}
+	}
+	if len(allowed) == 0 {
 		return nil
 	}
 	var k int
@@ -377,17 +479,16 @@ func cutsFor(rng *rand.Rand, n int) []int {
 	case 0:
 		k = 1 + rng.Intn(2)
 	case 1:
-		k = 1 + rng.Intn(n-1)
+		k = 1 + rng.Intn(len(allowed))
 	default:
-		k = n - 1
+		k = len(allowed)
 	}
-	if k > n-1 {
-		k = n - 1
+	if k > len(allowed) {
+		k = len(allowed)
 	}
-	pos := rng.Perm(n - 1)[:k]
 	mark := make([]bool, n)
-	for _, p := range pos {
-		mark[p+1] = true
+	for _, p := range rng.Perm(len(allowed))[:k] {
+		mark[allowed[p]] = true
 	}
 	var out []int
 	last := 0
@@ -453,7 +554,7 @@ func perturb(g *genT, items []itemT) ([]itemT, string) {
 				continue
 			}
 			for j := i + 1; j < len(cp); j++ {
-				if cp[j].K != "type" && mentions(&cp[j], cp[i].X) && !cp[j].isStmt() {
+				if cp[j].K != "type" && cp[j].K != "const" && mentions(&cp[j], cp[i].X) && !cp[j].isStmt() && !insideConstDecl(cp, j+1) {
 					it := cp[i]
 					copy(cp[i:j], cp[i+1:j+1])
 					cp[j] = it
@@ -506,6 +607,9 @@ func perturb(g *genT, items []itemT) ([]itemT, string) {
 				for it.K == "func" && j < len(cp) && !cp[j].isStmt() && cp[j].K != "init" && rng.Intn(3) > 0 {
 					j++
 				}
+				for insideConstDecl(cp, j) {
+					j++
+				}
 				out := append(append(append([]itemT{}, cp[:j]...), it), cp[j:]...)
 				return out, "redefinition"
 			}
@@ -530,7 +634,7 @@ func (g *genT) history(thorough bool) (texts [][]itemT, note string) {
 	for len(base) > 0 && base[len(base)-1].K == "stmt" && base[len(base)-1].S.K == "print" && base[len(base)-1].S.E.K == "glob" {
 		base = base[:len(base)-1]
 	}
-	texts = textsOf(cutsFor(g.rng, len(base)), base)
+	texts = textsOf(cutsFor(g.rng, base), base)
 	note = "redefine"
 	rounds := 1 + g.pick(3)
 	special := g.pick(12)
@@ -656,7 +760,7 @@ func generate(rng *rand.Rand, thorough bool) []caseT {
 			nCuts = 3
 		}
 		for k := 0; k < nCuts; k++ {
-			out = append(out, caseT{Kind: "prog", Items: items, Cuts: cutsFor(rng, len(items)), Note: note})
+			out = append(out, caseT{Kind: "prog", Items: items, Cuts: cutsFor(rng, items), Note: note})
 		}
 	}
 	for i := 0; i < nHist; i++ {
